@@ -43,6 +43,7 @@ type c20ExploreC struct {
 	Files     map[string][]byte `json:"files,omitempty"` // chartfiles / lint / archive (tar level)
 	Mutations int               `json:"mutations"`
 	Note      string            `json:"note,omitempty"`
+	Dir       *c20DirC          `json:"dir,omitempty"` // target dir: a chart directory with special files (c20_dir.go)
 }
 
 var c20Targets = []string{"strvals", "strvals", "values", "manifests", "archive", "chartfiles", "chartfiles", "lint", "index", "prov", "ignore", "plugin", "actions", "template"}
@@ -394,6 +395,8 @@ func c20ExploreCorpus() []any {
 	for i, x := range c20TemplateExtras[1:] {
 		out = append(out, c20Case{Kind: "explore", Explore: &c20ExploreC{Target: "template", Files: c20SeedChartFiles(), Note: x, Data: []byte{0, 0, 0, byte(i)}, Mutations: 1}})
 	}
+	// replay of the known finding K10 (include x template: the two depth bounds multiply)
+	out = append(out, c20Case{Kind: "explore", Explore: &c20ExploreC{Target: "template", Files: c20SeedChartFiles(), Note: c20KnownStackWitness, Data: []byte{0, 0, 0, 0}, Mutations: 1}})
 	// witness of 385b115: lint of a chart whose maintainers list has a null item
 	f := c20SeedChartFiles()
 	f["Chart.yaml"] = []byte("apiVersion: v2\nname: top\nversion: 1.2.3\nmaintainers:\n- null\n")
@@ -781,6 +784,9 @@ func c20RunProv(e *c20ExploreC, step *string) bool {
 }
 
 func c20ExecExplore(e *c20ExploreC) c20Obs {
+	if e.Target == "dir" && e.Dir != nil {
+		return c20ExecDirInWorker(e.Dir) // own watchdog: releases the named pipes when it fires
+	}
 	obs := c20Obs{}
 	step := e.Target
 	accepted := false
